@@ -338,6 +338,8 @@ def run(chk):
     chk.tlc('MC_MeshOps_%s.cfg' % tier, res, 'block meshes x node numbering x element numbering x row order; boundary node set')
     if res.violated:
         chk.machinery.append('model invariant %s violated: %s' % (res.violated, res.trace[-1:]))
+    if res.violated and res.dump_path and os.path.exists(res.dump_path):
+        os.remove(res.dump_path)          # TLC stops at the violation: the dump is incomplete (its last state truncated) and is not replayed
     if res.dump_path and os.path.exists(res.dump_path):
         parts = par.split_dump(res.dump_path, 48)
         tot = 0
